@@ -1,5 +1,6 @@
 import Spydr.Common.Proto
 import Spydr.IR.Model
+import Spydr.IR.NamesModel
 open Lean Spydr.Proto Spydr.IR
 
 def getOptInt (j : Json) (k : String) : Except String (Option Int) :=
@@ -108,15 +109,96 @@ def dump (s : S) (c : Json) : Json :=
     ("pin", tab nQ fun q => Json.mkObj [("port", ofOptNat (s.pinPort q)), ("wire", ofOptNat (s.pinWire q))]),
     ("wire", tab nW fun w => Json.mkObj [("cable", ofOptNat (s.wireCable w)), ("pins", Json.arr ((s.wirePins w).map jPin).toArray)])]
 
-def handle (s : S) (j : Json) : Except String (S × Json) := do
+namespace NamesDrv
+open Spydr.Names
+
+def kindOf : String → Except String Kind
+  | "netlist" => pure .netlist | "library" => pure .library | "definition" => pure .definition
+  | "port" => pure .port | "cable" => pure .cable | "instance" => pure .instance
+  | k => throw s!"bad kind {k}"
+
+def kindStr : Kind → String
+  | .netlist => "netlist" | .library => "library" | .definition => "definition"
+  | .port => "port" | .cable => "cable" | .instance => "instance"
+
+def elOf (j : Json) : Except String El := do
+  let a ← j.getArr?
+  let k ← kindOf (← (a[0]?.getD Json.null).getStr?)
+  let n ← (a[1]?.getD Json.null).getNat?
+  pure ⟨k, n⟩
+
+def jEl (e : El) : Json := Json.arr #[Json.str (kindStr e.kind), jn e.id]
+def jOptEl : Option El → Json
+  | none => Json.null
+  | some e => jEl e
+def jOptStr : Option String → Json
+  | none => Json.null
+  | some s => Json.str s
+
+def polOf : String → Except String Policy
+  | "DEFAULT" => pure .default | "EDIF" => pure .edif | p => throw s!"bad policy {p}"
+def polStr : Policy → String
+  | .default => "DEFAULT" | .edif => "EDIF"
+def keyOf : String → Except String Key
+  | "name" => pure .name | "ident" => pure .ident | k => throw s!"bad key {k}"
+
+def nopOf (j : Json) : Except String Spydr.Names.Op := do
+  let t ← getStr j "t"
+  match t with
+  | "create" => pure (.create (← elOf (← j.getObjVal? "e")))
+  | "attach" => pure (.attach (← elOf (← j.getObjVal? "p")) (← elOf (← j.getObjVal? "c")))
+  | "detach" => pure (.detach (← elOf (← j.getObjVal? "p")) (← elOf (← j.getObjVal? "c")))
+  | "setKey" => pure (.setKey (← elOf (← j.getObjVal? "e")) (← keyOf (← getStr j "k")) (← getStr j "v"))
+  | "delKey" => pure (.delKey (← elOf (← j.getObjVal? "e")) (← keyOf (← getStr j "k")))
+  | "popKey" => pure (.popKey (← elOf (← j.getObjVal? "e")) (← keyOf (← getStr j "k")))
+  | "delNameProp" => pure (.delNameProp (← elOf (← j.getObjVal? "e")))
+  | "setNs" => pure (.setNs (← elOf (← j.getObjVal? "e")) (← polOf (← getStr j "pol")))
+  | "delNs" => pure (.delNs (← elOf (← j.getObjVal? "e")))
+  | "setDefault" => pure (.setDefault (← polOf (← getStr j "pol")))
+  | _ => throw s!"unknown names op {t}"
+
+def nresStr : Spydr.Names.Res → String
+  | .ok => "ok" | .assert => "assert" | .value => "value" | .key => "key"
+
+def ndump (s : N) (els : List El) : Json :=
+  Json.arr (els.map (fun e => Json.mkObj [
+    ("e", jEl e), ("name", jOptStr (s.info e).name), ("ident", jOptStr (s.info e).ident),
+    ("ns", match (s.info e).ns with | none => Json.null | some p => Json.str (polStr p)),
+    ("parent", jOptEl (s.parent e)), ("kids", Json.arr ((s.kids e).map jEl).toArray),
+    ("tbl", if s.hasTbl e then Json.str (polStr (s.tpol e)) else Json.null)])).toArray
+
+end NamesDrv
+
+structure DState where
+  s : S
+  n : Spydr.Names.N
+
+def handle (st : DState) (j : Json) : Except String (DState × Json) := do
+  let s := st.s
   let cmd ← getStr j "cmd"
   match cmd with
-  | "reset" => pure (S.init, Json.mkObj [("ok", Json.bool true)])
+  | "reset" => pure ({ st with s := S.init }, Json.mkObj [("ok", Json.bool true)])
   | "op" =>
     let op ← opOf (← j.getObjVal? "op")
     let (s', r) := step s op
-    pure (s', Json.mkObj [("res", Json.str (resStr r))])
-  | "dump" => pure (s, dump s (← j.getObjVal? "n"))
+    pure ({ st with s := s' }, Json.mkObj [("res", Json.str (resStr r))])
+  | "dump" => pure (st, dump s (← j.getObjVal? "n"))
+  | "nreset" => pure ({ st with n := Spydr.Names.N.init }, Json.mkObj [("ok", Json.bool true)])
+  | "nop" =>
+    let op ← NamesDrv.nopOf (← j.getObjVal? "op")
+    let (n', r) := Spydr.Names.step st.n op
+    pure ({ st with n := n' }, Json.mkObj [("res", Json.str (NamesDrv.nresStr r))])
+  | "ndump" =>
+    let els ← (← getArr j "els").toList.mapM NamesDrv.elOf
+    pure (st, NamesDrv.ndump st.n els)
+  | "nlookup" =>
+    let p ← NamesDrv.elOf (← j.getObjVal? "p")
+    let kd ← NamesDrv.kindOf (← getStr j "kd")
+    let k ← NamesDrv.keyOf (← getStr j "k")
+    let v ← getStr j "v"
+    pure (st, Json.mkObj [("lookup", NamesDrv.jOptEl (st.n.lookup p kd k v)),
+                          ("scan", NamesDrv.jOptEl (st.n.scan p kd k v)),
+                          ("scanCI", NamesDrv.jOptEl (st.n.scanCI p kd v))])
   | _ => throw s!"unknown cmd {cmd}"
 
-def main : IO Unit := run handle S.init
+def main : IO Unit := run handle { s := S.init, n := Spydr.Names.N.init }
